@@ -314,12 +314,18 @@ def parse_grouped(integration: str, data: bytes, frame_metadata=None, **kw) -> l
     return list(iter_grouped(integration, data, frame_metadata=frame_metadata, **kw))
 
 
-def run_flat_collect(integration: str, inp: Any, **kw) -> tuple[list, BaseException | None]:
-    """Drive the flat parser item by item; return (events yielded, exception or None)."""
+def run_flat_collect(integration: str, inp: Any, preread: bool = False, **kw) -> tuple[list, BaseException | None]:
+    """Drive the flat parser item by item; return (events yielded, exception or None).
+
+    preread: the documented two-step use - get_options_and_frames(inp) first, then parse_jelly_flat(inp, frames=, options=)."""
     mod = gparse if integration == "generic" else rparse
     conv = T.event_from_generic if integration == "generic" else T.event_from_rdflib
     out: list = []
     try:
+        if preread:
+            from pyjelly.parse.ioutils import get_options_and_frames
+            options, frames = get_options_and_frames(inp)
+            kw = dict(kw, frames=frames, options=options)
         for item in mod.parse_jelly_flat(inp, **kw):
             out.append(conv(item))
     except Exception as e:  # noqa: BLE001 - the outcome *is* the observation
